@@ -173,7 +173,8 @@ def _account(res, check, cfg, w, ix, vs, history=()):
     for name, n in (("stall", stalls), ("preemption", preempt), ("api-latency>=0.3s-run", int((cfg.get("latency") or [0, 0])[1] >= 0.3)),
                     ("clock-skew-run", int(bool(cfg.get("skew")))), ("drain-after-return-run", int(bool(cfg.get("drain")))),
                     ("scaled-size-limits-run", int(bool(cfg.get("limits")))), ("line-preemption-run", int(bool((cfg.get("sched") or {}).get("lines")))),
-                    ("tiny-batch-limits-run", int(bool(cfg.get("batch"))))):
+                    ("tiny-batch-limits-run", int(bool(cfg.get("batch")))),
+                    ("custom-serdes-run", int('"fserdes"' in json.dumps(cfg["program"]) or '_serdes"' in json.dumps(cfg["program"])))):
         if n:
             res["fired"][name] = res["fired"].get(name, 0) + n
     for k, v in w.reach.items():
